@@ -486,18 +486,20 @@ class Check(PropertyCheck):
                   "every response validate_headers accepts, HTTP/d.d, status 100..999, fold-free values, and every body consistent "
                   "with expected_http_body_size — HEAD/1xx/204/304 shortcuts, Content-Length, chunked re-framing, read-until-close — "
                   "the reference reader reads what Http1Server.send writes back as exactly version, status, reason, fields, body); "
-                  "forward_request_roundtrip_fold / relay_response_roundtrip_fold (the same with obs-fold in the values). "
+                  "forward_request_roundtrip_obsfold / relay_response_roundtrip_obsfold / forward_stream_roundtrip_obsfold (the same with "
+                  "obs-fold in the values, single messages and pipelined streams; framing_fields_plain derives from validate_headers that "
+                  "Content-Length / Transfer-Encoding themselves are never folded — parseTE_plain — so the fold theorems carry no extra "
+                  "hypothesis). "
                   "The oracle's abstentions are each as narrow as their reason (HTTP/2.0-versioned request lines are compared modulo "
                   "exactly the h2->h1 conversion of that flow; response pairing skips only what an addon edit touched). "
                   "The real HttpLayer (regular/reverse/transparent, validate_inbound_headers on) is checked directly: bytes written "
                   "upstream/downstream are parsed by an independent Python RFC 9112 parser and compared with the flows recorded at the "
                   "hooks (count, order, method, target, fields, body; ambiguous messages not forwarded); the model is tied function by "
                   "function to the real code, and the Lean Ref to the Python reference parser.")
-    level_note = ("PARTIAL in Lean: the request and response round trips are proved for fold-free values and — forward_request_"
-                  "roundtrip_fold, relay_response_roundtrip_fold — for values folded with CR LF SP/HTAB (fields read back as Ref.unfold "
-                  "of the recorded ones); open: the fold theorems take as hypothesis that Content-Length/Transfer-Encoding themselves "
-                  "are not folded (validate_headers rejects such a message; that implication is not derived in Lean), values folded "
-                  "with a bare LF (addon edits only) and the pipelined-stream theorem with folds are not covered. A 2xx answer to "
+    level_note = ("PARTIAL in Lean: the request, response and pipelined-stream round trips are proved for fold-free values and for "
+                  "values folded with CR LF SP/HTAB (fields read back as Ref.unfold of the recorded ones); open: values folded with "
+                  "a bare LF (possible through addon edits only) and the byte-level formulation ObsFoldNormalisation (its structural "
+                  "form obs_fold_field is what is proved and used). A 2xx answer to "
                   "CONNECT (produced by the proxy itself, opens a tunnel) is excluded from relay_response_roundtrip; status codes are "
                   "rendered with three digits (100..999, what the HTTP/1 reader produces). The real layer's bytes are covered by the "
                   "reference-parser oracle and the fwdreq/fwdresp/refreqs/refresp "
